@@ -106,6 +106,7 @@ package r1cs
 //@   assigns *builder.cs, *builder.mtBooleans
 //@   requires builder != nil && liveV(i1)
 //@   ensures @iszero denR(builder, result) == (denR(builder, i1) == f0 ? f1 : f0)
+//@   ensures @live liveV(result)
 
 //@ contract (*builder).Inverse
 //@   props C05
@@ -136,6 +137,7 @@ package r1cs
 //@   assigns *builder.cs, *builder.mtBooleans
 //@   requires builder != nil && liveV(_a) && liveV(_b)
 //@   ensures @and isBool(denR(builder, _a)) && isBool(denR(builder, _b)) && denR(builder, result) == fmul(denR(builder, _a), denR(builder, _b))
+//@   ensures @live liveV(result)
 
 //@ contract (*builder).Xor
 //@   props C05
@@ -152,6 +154,7 @@ package r1cs
 //@   lemma @select-table isBool(denR(builder, i0)) ==> fadd(fmul(denR(builder, i0), fsub(denR(builder, i1), denR(builder, i2))), denR(builder, i2)) == (denR(builder, i0) == f1 ? denR(builder, i1) : denR(builder, i2))
 //@   lemma @select-zero isBool(denR(builder, i0)) ==> fmul(fsub(f1, denR(builder, i0)), denR(builder, i2)) == (denR(builder, i0) == f1 ? f0 : denR(builder, i2))
 //@   ensures @select isBool(denR(builder, i0)) && denR(builder, result) == (denR(builder, i0) == f1 ? denR(builder, i1) : denR(builder, i2))
+//@   ensures @live liveV(result)
 
 //@ contract (*builder).mulConstant
 //@   trusted "not verified: coefficient-wise scaling of (a clone of) the expression"
@@ -192,3 +195,25 @@ package r1cs
 //@   assigns *builder.cs, *builder.mtBooleans
 //@   requires builder != nil && liveV(i1) && liveV(i2)
 //@   ensures @different denR(builder, i1) != denR(builder, i2)
+
+// ---- Cmp: as in the sparse builder (frontend/cs/scs/contracts_verif.go): canonical decompositions by bits.ToBinary,
+// instantiated at this builder by the bridge lemmas; hiR(b, s, i) is the integer the bits s[i:] spell.
+//@ spec func hiR(b Builder, s []Variable, i int) int
+//@ contract (*builder).Cmp
+//@   props C05
+//@   assigns *builder.cs, *builder.mtBooleans, i1, i2
+//@   requires builder != nil && liveV(i1) && liveV(i2)
+//@   lemma @bridge den(i1) == denR(builder, i1) && den(i2) == denR(builder, i2)
+//@   ensures @cmp denR(builder, result) == (ival(denR(builder, i1)) == ival(denR(builder, i2)) ? f0 : (ival(denR(builder, i1)) > ival(denR(builder, i2)) ? f1 : fneg(f1)))
+//@   loop 1 lemma @bridge-bits1 allBool(bi1) ==> (forall k int :: 0 <= k && k < len(bi1) ==> isBool(denR(builder, bi1[k])) && liveV(bi1[k])) && hiR(builder, bi1, 0) == bsum(bi1)
+//@   loop 1 lemma @bridge-bits2 allBool(bi2) ==> (forall k int :: 0 <= k && k < len(bi2) ==> isBool(denR(builder, bi2[k])) && liveV(bi2[k])) && hiR(builder, bi2, 0) == bsum(bi2)
+//@   loop 1 lemma @consts fneg(f1) != f1 && fneg(f1) != f0 && ofInt(0 - 1) == fneg(f1)
+//@   loop 1 lemma @hi-top hiR(builder, bi1, len(bi1)) == 0 && hiR(builder, bi2, len(bi2)) == 0
+//@   loop 1 lemma @hi-unfold1 i >= 0 && isBool(denR(builder, bi1[i])) ==> hiR(builder, bi1, i) == (denR(builder, bi1[i]) == f1 ? 1 : 0) + 2 * hiR(builder, bi1, i + 1)
+//@   loop 1 lemma @hi-unfold2 i >= 0 && isBool(denR(builder, bi2[i])) ==> hiR(builder, bi2, i) == (denR(builder, bi2[i]) == f1 ? 1 : 0) + 2 * hiR(builder, bi2, i + 1)
+//@   loop 1 invariant @range 0 - 1 <= i && i < nbBits && len(bi1) == nbBits && len(bi2) == nbBits && allocated(res)
+//@   loop 1 invariant @bits (forall k int :: 0 <= k && k < nbBits ==> isBool(denR(builder, bi1[k])) && isBool(denR(builder, bi2[k])) && liveV(bi1[k]) && liveV(bi2[k])) && hiR(builder, bi1, 0) == ival(denR(builder, i1)) && hiR(builder, bi2, 0) == ival(denR(builder, i2))
+//@   loop 1 invariant @res lsum(builder, res) == f0 || lsum(builder, res) == f1 || lsum(builder, res) == fneg(f1)
+//@   loop 1 invariant @eq lsum(builder, res) == f0 ==> hiR(builder, bi1, i + 1) == hiR(builder, bi2, i + 1)
+//@   loop 1 invariant @gt lsum(builder, res) == f1 ==> hiR(builder, bi1, i + 1) > hiR(builder, bi2, i + 1)
+//@   loop 1 invariant @lt lsum(builder, res) == fneg(f1) ==> hiR(builder, bi1, i + 1) < hiR(builder, bi2, i + 1)
